@@ -81,10 +81,12 @@ class F:
 
 
 def _try(fn):
+    """True / False, or None when the operation raises (which exception is not distinguished: the model only says
+    where an exception is raised)"""
     try:
         r = fn()
         return bool(r)
-    except (ValueError, AttributeError):
+    except Exception:  # noqa
         return None
 
 
@@ -216,6 +218,25 @@ def run(ctx):
         cases.append('(%s, %s, %s)' % (f.coq(), g.coq(), obs_coq(o)))
         meta.append((f, g, o))
         ctx.count('pairs', key=('reassigned', f.key(), g.key()), nontrivial=(classify(f, g) == 'comparable'), kind='reassigned', length=max(f.n(), g.n()))
+    # the public `selector` argument of dominates(): dominance over the selected objectives only.  The case shown
+    # to Coq is the pair RESTRICTED to the selected components (everything observed on freshly built restricted
+    # objects) with the dominance answer taken from the FULL objects called with the selector
+    SELECTORS = [slice(1, None), slice(0, 2), slice(None, None, 2), slice(-2, None), slice(1, 2), slice(None, 1)]
+    multi = [f for f in fs if f.kind == 'M' and f.n() >= 2]
+    sel_pairs = [(f, g) for f in multi for g in multi if f.n() == g.n()]
+    ctx.rng.shuffle(sel_pairs)
+    for f, g in sel_pairs[:ctx.budget(500, 6000)]:
+        sel = SELECTORS[ctx.rng.randrange(len(SELECTORS))]
+        fr, gr = F('M', tuple(f.a[sel]), tuple(f.b[sel])), F('M', tuple(g.a[sel]), tuple(g.b[sel]))
+        if not fr.a:
+            continue
+        o = observe(fr, gr)
+        a, b = f.build(), g.build()
+        o['dom'] = _try(lambda: a.dominates(b, selector=sel))
+        cases.append('(%s, %s, %s)' % (fr.coq(), gr.coq(), obs_coq(o)))
+        meta.append((fr, gr, o))
+        ctx.count('pairs', key=('selector', f.key(), g.key(), repr(sel)), nontrivial=True, kind='selector', length=fr.n(),
+                  infinite=(fr.has_inf() or gr.has_inf()))
     ctx.set_exhaustive('pairs', exhaustive)
     # canary: a deliberately wrong observation must be flagged by the model
     f, g = F('S', 1.0, ()), F('S', 2.0, ())
